@@ -78,6 +78,16 @@ async fn query_nameserver_udp_notimeout(
         return None;
     }
 
+    #[cfg(resolved_verif)]
+    if let Some(transport) = verif::current_transport() {
+        // same as the real path: the reply lands in a zeroed 512-byte buffer
+        let reply = transport(address, false, serialised_request.to_vec()).await?;
+        let mut buf = vec![0u8; 512];
+        let n = std::cmp::min(reply.len(), buf.len());
+        buf[..n].copy_from_slice(&reply[..n]);
+        return Message::from_octets(&buf).ok();
+    }
+
     let mut buf = vec![0u8; 512];
     let sock = UdpSocket::bind("0.0.0.0:0").await.ok()?;
     sock.connect(address).await.ok()?;
@@ -109,6 +119,12 @@ async fn query_nameserver_tcp_notimeout(
     address: SocketAddr,
     serialised_request: &mut [u8],
 ) -> Option<Message> {
+    #[cfg(resolved_verif)]
+    if let Some(transport) = verif::current_transport() {
+        let reply = transport(address, true, serialised_request.to_vec()).await?;
+        return Message::from_octets(&reply).ok();
+    }
+
     let mut stream = TcpStream::connect(address).await.ok()?;
     send_tcp_bytes(&mut stream, serialised_request).await.ok()?;
     let bytes = read_tcp_bytes(&mut stream).await.ok()?;
@@ -191,6 +207,38 @@ pub fn get_nxdomain_nodata_soa<'a>(
     }
 
     None
+}
+
+/// Verification hooks (compiled only with `--cfg resolved_verif`): lets a
+/// test harness stand in for the network below `query_nameserver_udp` and
+/// `query_nameserver_tcp`.  Timeouts, response matching and the UDP to TCP
+/// fallback are the real ones.
+#[cfg(resolved_verif)]
+pub mod verif {
+    use std::future::Future;
+    use std::net::SocketAddr;
+    use std::pin::Pin;
+    use std::sync::{Arc, RwLock};
+
+    /// What the transport hands back: the raw reply octets, or `None` for a
+    /// transport-level failure.  A future which never completes is silence.
+    pub type Reply = Pin<Box<dyn Future<Output = Option<Vec<u8>>> + Send>>;
+
+    /// `(destination, is_tcp, request octets) -> reply`.
+    pub type Transport = Arc<dyn Fn(SocketAddr, bool, Vec<u8>) -> Reply + Send + Sync>;
+
+    static TRANSPORT: RwLock<Option<Transport>> = RwLock::new(None);
+
+    /// Install (or, with `None`, remove) the process-wide transport.
+    #[allow(clippy::missing_panics_doc)]
+    pub fn set_transport(transport: Option<Transport>) {
+        *TRANSPORT.write().unwrap() = transport;
+    }
+
+    #[allow(clippy::missing_panics_doc)]
+    pub fn current_transport() -> Option<Transport> {
+        TRANSPORT.read().unwrap().clone()
+    }
 }
 
 #[cfg(test)]
